@@ -15,7 +15,7 @@ def make_scenarios(ctx, count, flen):
     scns = []
     for i in range(count):
         rng = G.rng_for(ctx.seed, "C03", i)
-        cfg = G.rand_cfg(rng, mtu=rng.choice([576, 1500, 9216, rng.randint(576, 9216)]))
+        cfg = G.rand_cfg(rng, mtu=rng.choice([576, 1500, 9216, rng.randint(576, 9216), rng.choice(G.MTUS_HUGE)]))
         glob = G.rand_global(rng, icon_size=rng.choice([0, 300]))
         net = G.Net(rng, cfg["mac"], nmappers=rng.randint(3, 4), nstrangers=3)
         if i % 4 == 3:
